@@ -55,11 +55,23 @@ type SysReq struct {
 	Header  [][2]string
 	Body    []byte
 	Chunked bool // body sent with Transfer-Encoding: chunked (no Content-Length)
+	// KeepAlive: the request carries NO Connection header at all (what Go clients and HTTP/2 front ends send:
+	// seeded changes C04-m5 / C20-m5 live on the path where nothing hop-by-hop has to be filtered). The raw client
+	// still reads to end of stream: a second, deliberately incomplete request (no Host) follows on the same
+	// connection, which net/http answers 400 by itself - the handler is never called for it - and closes.
+	KeepAlive bool
 }
 
 func (r SysReq) Raw() []byte {
 	var b bytes.Buffer
-	b.WriteString(r.Method + " " + r.Target + " HTTP/1.1\r\nHost: " + r.Host + "\r\nConnection: close\r\n")
+	b.WriteString(r.Method + " " + r.Target + " HTTP/1.1\r\nHost: " + r.Host + "\r\n")
+	if !r.KeepAlive {
+		b.WriteString("Connection: close\r\n")
+	}
+	end := ""
+	if r.KeepAlive {
+		end = "GET / HTTP/1.1\r\nConnection: close\r\n\r\n"
+	}
 	for _, kv := range r.Header {
 		b.WriteString(kv[0] + ": " + kv[1] + "\r\n")
 	}
@@ -76,7 +88,7 @@ func (r SysReq) Raw() []byte {
 			b.WriteString("\r\n")
 			rest = rest[n:]
 		}
-		b.WriteString("0\r\n\r\n")
+		b.WriteString("0\r\n\r\n" + end)
 		return b.Bytes()
 	}
 	if len(r.Body) > 0 || r.Method == "POST" || r.Method == "PUT" {
@@ -84,6 +96,7 @@ func (r SysReq) Raw() []byte {
 	}
 	b.WriteString("\r\n")
 	b.Write(r.Body)
+	b.WriteString(end)
 	return b.Bytes()
 }
 
@@ -241,6 +254,11 @@ func contactTokens(cs []sysx.Contact) (cmp []string, obs []string) {
 }
 
 type sysCase struct {
+	// Sibling: when non-nil the router is first built with THESE rules and then reloaded (Router.SetRules) with
+	// Rules - a rule set that differs from Rules in one rule's enabled flag, host or scheme constraint only. Whatever
+	// was loaded before, a request is handled under the rules loaded last (seeded change C01-m5: a reload skipped
+	// when the rule list "looks unchanged"). The model sees Rules only.
+	Sibling    []hx.RuleSpec
 	Rules      []hx.RuleSpec
 	Secrets    []string // nil = not configured
 	SecretsNil bool
@@ -278,10 +296,37 @@ func (c sysCase) runOnce(rs []hx.RuleSpec) (sysx.ClientView, []sysx.Contact, boo
 	if err != nil {
 		return sysx.ClientView{}, nil, false
 	}
-	w.Configure(rules, c.conf())
+	if c.Sibling != nil && len(rs) == len(c.Rules) {
+		if before, err2 := proxy.ParseRules(hx.RulesJSON(c.Sibling), sysx.Logger); err2 == nil {
+			w.Configure(before, c.conf())
+			w.Router.SetRules(rules)
+		} else {
+			w.Configure(rules, c.conf())
+		}
+	} else {
+		w.Configure(rules, c.conf())
+	}
 	w.Perf.Reset(scriptFunc(c.Script))
 	v := w.Do(c.Req.Raw(), c.Req.Method == "HEAD")
 	return v, w.Perf.Take(), true
+}
+
+// siblingOf: the same rules with ONE rule's enabled flag flipped, or its host / scheme constraint changed
+func siblingOf(g *hx.Gen, rs []hx.RuleSpec) []hx.RuleSpec {
+	out := append([]hx.RuleSpec{}, rs...)
+	k := g.Intn(len(out))
+	r := out[k]
+	switch g.Intn(3) {
+	case 0:
+		f := r.Enabled != nil && !*r.Enabled // flip: disabled <-> enabled
+		r.Enabled = &f
+	case 1:
+		r.Host = g.Pick([]string{"", "h1.test", "h2.test", "other.test"})
+	default:
+		r.Scheme = g.Pick([]string{"", "https", "http"})
+	}
+	out[k] = r
+	return out
 }
 
 func withoutCopy(rs []hx.RuleSpec) []hx.RuleSpec {
@@ -441,6 +486,15 @@ func sysuStream(g *hx.Gen, id int) hx.Case {
 		// query, so "/m/ab?q=1" falls through to the wildcard rule
 		c.Rules = append(c.Rules, hx.RuleSpec{Path: "/m/ab", Dest: "http://d4.test/fixed"})
 	}
+	if g.Chance(15) {
+		// an exact pattern that is the DECODED form of an escaped request-target of the vocabulary: "/m/a%2Fb" is not "/m/a/b"
+		c.Rules = append(c.Rules, hx.RuleSpec{Path: "/m/a/b", Dest: "http://d4.test/decoded"})
+	}
+	if g.Chance(12) {
+		// the main rule answers some methods only (seeded change C02-m6: a HEAD request that no rule matches must get
+		// 404 and contact nobody, whatever a flavour lookup with another method would find)
+		main.Methods = [][]string{{"GET"}, {"GET", "POST"}, {"POST", "PUT"}}[g.Intn(3)]
+	}
 	c.Rules = append(c.Rules, main)
 	if g.Chance(20) {
 		c.Rules = append(c.Rules, hx.RuleSpec{Path: "/*", Dest: "http://d3.test/$1"})
@@ -466,6 +520,17 @@ func sysuStream(g *hx.Gen, id int) hx.Case {
 		c.Req.Target = "/m/post/a?k=v"
 	default:
 		c.Req.Target = "/m/" + g.Pick(hx.Segs) + g.Pick([]string{"", "/x", "?q=1", "/%2Fy?a=b&c"})
+	case 2:
+		// request-targets whose as-sent path is not Go's canonical encoding of the decoded path, yet decodes to a
+		// CLEAN path (so net/http's mux lets it through): rules are matched against the text the client sent
+		// (seeded changes C01-m6 / C02-m5: completeURL rebuilt from the decoded path), and a bare "?"
+		c.Req.Target = "/m/" + g.Pick([]string{"a%2Fb", "%41b", "x%3Ay", "p%40q", "(a)*!'", "a%2fb/c", "%69d", "a%20b", "seg?", "a%2Fb?k=%2F"})
+	}
+	for _, r := range c.Rules {
+		if r.Path == "/m/a/b" && g.Chance(60) {
+			// the escaped spelling of that exact pattern: it must fall through to the wildcard rule
+			c.Req.Target = g.Pick([]string{"/m/a%2Fb", "/m/a%2fb", "/m/a%2Fb?k=v"})
+		}
 	}
 	c.Req.Host = g.Pick([]string{"h1.test", "h1.test:8080", "H2.Test"})
 	if g.Chance(12) {
@@ -497,6 +562,22 @@ func sysuStream(g *hx.Gen, id int) hx.Case {
 		if g.Chance(40) {
 			c.Req.Header = append(c.Req.Header, [2]string{"Richie-Request-ID", "client-id"})
 		}
+	}
+	if g.Chance(25) {
+		c.Sibling = siblingOf(g, c.Rules)
+	}
+	c.Req.KeepAlive = g.Chance(35)
+	if c.Req.KeepAlive {
+		// nothing hop-by-hop at all
+		kept := c.Req.Header[:0]
+		for _, kv := range c.Req.Header {
+			switch strings.ToLower(kv[0]) {
+			case "connection", "keep-alive", "proxy-authenticate", "proxy-authorization", "te", "trailers", "transfer-encoding", "upgrade":
+			default:
+				kept = append(kept, kv)
+			}
+		}
+		c.Req.Header = kept
 	}
 	if c.Req.Method == "POST" || c.Req.Method == "PUT" || g.Chance(10) {
 		c.Req.Body = genBody(g)
